@@ -4,7 +4,7 @@
    Specification side (what a conforming encoder may write): Proofs/Woff2Spec.v. *)
 From AV Require Import Base.Prelude Base.Lemmas Gen.Woff2Lut Model.Woff2
   Proofs.Woff2Spec Proofs.Woff2Ints Proofs.Woff2Triplet Proofs.Woff2Glyf Proofs.Woff2Hmtx Proofs.Woff2Dir
-  Proofs.Woff2Provider.
+  Proofs.Woff2Provider Proofs.Woff2TtSpec Proofs.Woff2TtProofs.
 Open Scope Z_scope.
 
 (* ================================================================== (a) variable-length integers *)
@@ -287,6 +287,44 @@ Theorem C11_transformed_font_tables_partial :
         ++ map (fun t => (t_tag t, t_data t)) (filter (fun t => negb (rebuilt_tag (t_tag t))) ts)).
 Proof. exact transformed_font_tables_partial. Qed.
 Print Assumptions C11_transformed_font_tables_partial.
+
+(* What the rebuilt glyf/loca describe.  tt_read_glyf / tt_read_glyph (Proofs/Woff2TtSpec.v) is a
+   reader of the plain TrueType glyf format written from the OpenType specification; read_loca is
+   LocaTable::read_dep.  Whatever padding and loca format the writers choose, reading the written
+   loca and then the written glyf through it gives back the glyph list. *)
+Theorem C11_rebuilt_glyf_loca_read_back : forall m pad short gs G offs L,
+  Forall glyph_tt_ok gs -> write_glyf m pad gs 0 = Ok (G, offs) -> len G < 4294967296 ->
+  write_loca short offs = Some L ->
+  read_loca L (len gs) (negb short) = Ok offs /\ tt_read_glyf G offs = Ok gs.
+Proof. exact rebuilt_glyf_loca_read_back. Qed.
+Print Assumptions C11_rebuilt_glyf_loca_read_back.
+
+(* END TO END for a TrueType font stored with the glyf, loca and hmtx transforms (gs, h = the
+   glyphs and metrics the encoder started from, int16 coordinates and deltas): in debug and
+   release arithmetic Woff2TableProvider::new succeeds and returns
+     hmtx  = the plain serialisation of h (the original table),
+     glyf, loca = tables through which the TrueType reader finds exactly gs,
+     head  = the original with checkSumAdjustment zeroed and the matching indexToLocFormat,
+     every other table byte-identical. *)
+Theorem C11_transformed_font_roundtrip :
+  forall m ts flavor index gs h gt lt ht hdt mt hht head long,
+  Forall tabspec_ok ts -> NoDup (map t_tag ts) ->
+  In gt ts -> t_tag gt = tag_glyf -> t_transformed gt = true -> encodes_glyf_table Debug gs (t_data gt) ->
+  In lt ts -> t_tag lt = tag_loca -> t_transformed lt = true ->
+  In ht ts -> t_tag ht = tag_hmtx -> t_transformed ht = true ->
+  encodes_hmtx gs h (t_data ht) -> hmtx_ok gs h ->
+  In hdt ts -> t_tag hdt = tag_head -> t_transformed hdt = false -> read_head (t_data hdt) = Ok (head, long) ->
+  In mt ts -> t_tag mt = tag_maxp -> t_transformed mt = false -> read_maxp (t_data mt) = Ok (len gs) ->
+  In hht ts -> t_tag hht = tag_hhea -> t_transformed hht = false -> read_hhea (t_data hht) = Ok (len (fst h)) ->
+  exists G L long',
+    table_provider m {| f_flavor := flavor; f_dir := spec_entries 0 ts; f_coll := None;
+                        f_block := block_of ts |} index
+    = Ok ([(tag_hmtx, write_hmtx h); (tag_glyf, G); (tag_head, write_head head long'); (tag_loca, L)]
+          ++ map (fun t => (t_tag t, t_data t)) (filter (fun t => negb (rebuilt_tag (t_tag t))) ts)) /\
+    (len G < 4294967296 ->
+     exists offs, read_loca L (len gs) long' = Ok offs /\ tt_read_glyf G offs = Ok gs).
+Proof. exact transformed_font_roundtrip. Qed.
+Print Assumptions C11_transformed_font_roundtrip.
 
 (* an index outside the collection is refused (fixed by ba32cb9; it used to panic) *)
 Example C11_ex_collection_bad_index :
